@@ -43,7 +43,8 @@ CONSTANTS
   Entry0,     \* initial entry points: set of <<module, code block>>
   ReloadWeight, \* how many times Reload is offered to the random simulator (>= 1)
   SweepOps,   \* operation names allowed as the later steps of a sweep
-  SweepMode   \* BOOLEAN: is this configuration a sweep
+  SweepMode,  \* BOOLEAN: is this configuration a sweep
+  Gate(_)     \* which operation names may be generated now (SweepGate; a trace specification narrows it)
 
 NONE == "none"
 NoneIdx == 99               \* a slice bound that was omitted (Python None)
@@ -470,6 +471,12 @@ SetPayload(y, pv) ==
          S2 == IF m # NONE /\ pv \in Referents THEN [S1 EXCEPT !.ridx[m][pv] = @ \cup {y}] ELSE S1
      IN DoSym([name |-> "sym.payload", y |-> y, pv |-> pv, res |-> NONE], S2)
 
+\* construction rejects more stored bytes than the interval's size (C19); a pure query of the constructor
+CtorInterval(z, bs) ==
+  /\ On("ctor")
+  /\ DoQuery([name |-> "ctor.interval", z |-> z, bs |-> bs,
+              res |-> IF Len(bs) > z THEN Exc("ValueError") ELSE [size |-> z, bytes |-> bs, isize |-> Len(bs)]])
+
 SetEntry(m, c) ==
   /\ On("entry") /\ entry' = [entry EXCEPT ![m] = c]
   /\ op' = [name |-> "mod.entry", m |-> m, c |-> c, res |-> NONE]
@@ -770,6 +777,7 @@ WrongKind(i, s) ==
     [] s.site \in {"edge.src", "edge.tgt"} -> R \cap (DataBlocks \cup Symbols \cup Sections \cup Modules)
     [] s.site \in {"expr.sym1", "expr.sym2"} -> R \cap (Blocks \cup Proxies \cup Sections)
 OtherFaults == {"dup-uuid-same-kind", "dup-uuid-cross-kind", "unknown-enum", "uuid-too-short", "uuid-too-long",
+                "contents-exceed-size", "contents-exceed-zero-size",
                 "bad-magic", "bad-version-byte", "bad-version-field", "zero-version-field", "truncated-header"}
 FaultExpect(f) == IF f \in {"bad-magic", "bad-version-byte", "bad-version-field", "zero-version-field",
                               "truncated-header"} THEN "ValueError"
@@ -790,11 +798,15 @@ LoadFault(i) ==
 -----------------------------------------------------------------------------
 \* In a sweep (SweepMode) only the first step is free; later steps are generated only for the
 \* operation names in SweepOps (the action constraints Sweep / SweepAfterReload then select exactly).
-G(names) == ~SweepMode \/ TLCGet("level") = 1 \/ (TLCGet("level") <= 3 /\ names \cap SweepOps # {})
+SweepGate(names) == ~SweepMode \/ TLCGet("level") = 1 \/ (TLCGet("level") <= 3 /\ names \cap SweepOps # {})
+G(names) == Gate(names)
 SetNames == {"set.add", "set.discard", "set.remove", "set.pop", "set.clear", "set.update", "set.ior", "set.iand",
              "set.isub", "set.ixor"}
 ListNames == {"list.insert", "list.append", "list.remove", "list.setitem", "list.extend", "list.iadd", "list.setslice",
               "list.delitem", "list.pop", "list.delslice", "list.clear", "list.reverse"}
+SetQNames == {"set.or", "set.ror", "set.and", "set.rand", "set.sub", "set.rsub", "set.xor", "set.rxor", "set.eq",
+              "set.ne", "set.le", "set.lt", "set.ge", "set.gt", "set.isdisjoint"}
+ListQNames == {"list.get", "list.slice", "list.index", "list.count", "list.contains", "list.len"}
 SymxNames == {"symx.set", "symx.setdefault", "symx.del", "symx.pop", "symx.get", "symx.contains", "symx.popitem",
               "symx.clear", "symx.len", "symx.update", "symx.assign"}
 CfgNames == {"cfg.add", "cfg.discard", "cfg.remove", "cfg.contains", "cfg.pop", "cfg.clear", "cfg.update", "cfg.ior",
@@ -804,9 +816,9 @@ CfgNames == {"cfg.add", "cfg.discard", "cfg.remove", "cfg.contains", "cfg.pop", 
 Next ==
   \/ G({"setparent"}) /\ \E c \in Children : \E p \in ParentsOf(c) \cup {NONE} : SetParent(c, p)
   \/ G(SetNames) /\ \E r \in Rels : OnR("set", r) /\ \E p \in RelParents(r) : SetMut(r, p)
-  \/ G({}) /\ \E r \in Rels : OnR("setq", r) /\ \E p \in RelParents(r) : SetQuery(r, p)
+  \/ G(SetQNames) /\ \E r \in Rels : OnR("setq", r) /\ \E p \in RelParents(r) : SetQuery(r, p)
   \/ G(ListNames) /\ On("list") /\ \E i \in IRs : ListMut(i)
-  \/ G({}) /\ On("listq") /\ \E i \in IRs : ListQuery(i)
+  \/ G(ListQNames) /\ On("listq") /\ \E i \in IRs : ListQuery(i)
   \/ \E v \in Intervals : \/ G({"attr.addr"}) /\ \E a \in Addrs \cup {NOADDR} : SetAddr(v, a)
                           \/ G({"attr.isize"}) /\ \E z \in ISizes : SetISize(v, z)
                           \/ G({"attr.bytes"}) /\ \E bs \in UNION {[1..k -> ByteVals] : k \in 0..MaxBytes} : SetBytes(v, bs)
@@ -815,6 +827,7 @@ Next ==
   \/ \E b \in Blocks : (G({"attr.off"}) /\ \E o \in Offs : SetOff(b, o)) \/ (G({"attr.bsize"}) /\ \E z \in BSizes : SetBSize(b, z))
   \/ \E y \in Symbols : \/ G({"sym.name"}) /\ \E nm \in Names : SetName(y, nm)
                         \/ G({"sym.payload"}) /\ \E pv \in Referents \cup Pays \cup {NONE} : SetPayload(y, pv)
+  \/ G({"ctor.interval"}) /\ \E z \in ISizes, bs \in UNION {[1..k -> ByteVals] : k \in 0..MaxBytes} : CtorInterval(z, bs)
   \/ G({"mod.entry"}) /\ \E m \in Modules, c \in CodeBlocks \cup {NONE} : SetEntry(m, c)
   \/ G({"tag.add", "tag.del"}) /\ \E h \in TagHolders, t \in Tags : TagOp(h, t)
   \/ G({"scal"}) /\ \E h \in ScalHolders : \E f \in FieldsOf(h) : \E t \in ScalDom[f] : SetScalar(h, f, t)
